@@ -76,6 +76,25 @@ def raw_fxp(F, signed, n_word, n_frac, codes, shape=None, **kw):
     return x
 
 
+def state_fxp(F, signed, n_word, n_frac, codes, shape=None, **kw):
+    """well-formed object whose value buffer is set *directly* to the given in-range code(s): the pre-state of an inductive step is
+    constructed instead of being produced by set_val (whose dtype-regime and inaccuracy tests would fork on the operand codes and
+    re-type them); the buffer has the dtype set_val would have chosen (object for n_word >= 64, else int64 / uint64)"""
+    x = F.Fxp(None, signed, n_word, n_frac, **kw)
+    dt = 'O' if n_word >= 64 else ('int64' if signed else 'uint64')
+    cl = list(codes) if _isinstance(codes, (list, tuple)) else [codes]
+    shape = tuple(shape) if shape else ()
+    if F.symbolic:
+        d = symnp.as_dtype(dt)
+        x.val = symnp.ndarray._new([v if T.is_sym(v) else symnp.cast_cell(v, d, None) for v in cl], shape, d, False)
+    else:
+        a = F.np.empty(len(cl), dtype=dt)
+        for i, v in enumerate(cl):
+            a[i] = v
+        x.val = a.reshape(shape)
+    return x
+
+
 def cint(v):
     """sizes computed from symbolic data (e.g. the word grown by an expanding shift) are concrete on every path: pin them"""
     if isinstance(v, T.SInt):
